@@ -331,6 +331,13 @@ fn faults(ir: &Ir, t: &Ty, doc: &Tree, rng: &mut Rng, depth: usize) -> Vec<(Stri
                 // a string where a number is required etc.; doubles accept integers, so avoid Int for them
                 let w = if p == "double" { Tree::Bool(true) } else { wrong_kind(d) };
                 out.push((format!("wrong-kind:{}", p), w));
+                if p == "double" {
+                    // a string is a double only if it is one of the three non-finite spellings: not a numeral in quotes,
+                    // not Rust's own spellings
+                    for t in ["1.5", "2", "1e3", "inf", "nan", "-Infinity ", "+Infinity", "infinity"] {
+                        out.push(("double-as-numeric-string".into(), Tree::Str(t.into())));
+                    }
+                }
             }
             match p.as_str() {
                 "integer" => out.push(("integer-out-of-range".into(), Tree::Int([2147483648i128, -2147483649][rng.below(2)]))),
